@@ -66,7 +66,8 @@ def main():
         rc, out = run([PY, 'demo.py'], scratch, env, 1800)
         res['demo_changed_exit'] = rc
         res['demo_changed_output'] = out[-400:]
-        tests = [t for t in meta.get('tests_run', []) if t.startswith('tests')]
+        tests = [t.split(' ')[0] for t in meta.get('tests_run', []) if t.startswith('tests')]
+        tests = [t for t in tests if os.path.exists(os.path.join(scratch, t.split('::')[0]))]
         if tests and not a.skip_tests:
             t0 = time.time()
             rc, out = run([PY, '-m', 'pytest', '-q', '-x', '-p', 'no:cacheprovider', '--timeout=1800'] + tests, scratch, env, 5400)
